@@ -10,12 +10,9 @@ import (
 	"github.com/synnaxlabs/synnax/pkg/distribution/node"
 	"github.com/synnaxlabs/synnax/pkg/distribution/proxy"
 	"github.com/synnaxlabs/x/address"
+	"github.com/synnaxlabs/x/errors"
 	"github.com/synnaxlabs/x/telem"
 )
-
-func verifResponse(label string, seq int, cmd Command) Response {
-	return Response{SeqNum: seq, Command: cmd, End: telem.TimeStamp(verifInt64(label + ".end")), Authorized: verifBool(label + ".authorized"), NodeKey: node.Key(verifUint16(label + ".node"))}
-}
 
 // VerifC07WriterSync: for nodeCount leaseholders, exactly one response is forwarded per sequence number, after
 // all of them answered, and it reports Authorized = AND of all and (for commits) End = max of all: a write or
@@ -29,17 +26,20 @@ func VerifC07WriterSync() {
 		cmd = CommandCommit
 	}
 	for round := 1; round <= 2; round++ { // two consecutive cycles: state is reset between them
-		allAuth := true
+		allAuth := uint8(1)
+		anyErr := false
 		var maxEnd telem.TimeStamp
 		for i := 0; i < n; i++ {
-			r := verifResponse("r", round, cmd)
+			// branch-free where possible: every symbolic bool that the harness itself branches on doubles the paths
+			auth := verifUint8("r.authorized") & 1
+			r := Response{SeqNum: round, Command: cmd, End: telem.TimeStamp(verifInt64("r.end")), Authorized: auth == 1, NodeKey: node.Key(i + 1)}
 			verifAssume(r.End >= 0)
-			if !r.Authorized {
-				allAuth = false
+			allAuth &= auth
+			if round == 1 && verifBool("r.failed") { // the second cycle only checks that state was reset
+				r.Err = errors.New("leaseholder refused")
+				anyErr = true
 			}
-			if i == 0 || r.End > maxEnd {
-				maxEnd = r.End
-			}
+			maxEnd = max(maxEnd, r.End)
 			out, ok, err := s.sync(ctx, r)
 			verifAssert("sync-no-error", err == nil)
 			if i < n-1 {
@@ -49,7 +49,8 @@ func VerifC07WriterSync() {
 			verifAssert("sync-forwarded-when-complete", ok)
 			verifAssert("sync-seqnum", out.SeqNum == round && out.Command == cmd)
 			verifObserveBool("out.authorized", out.Authorized)
-			verifAssert("sync-authorized-is-conjunction", out.Authorized == allAuth)
+			verifAssert("sync-authorized-is-conjunction", out.Authorized == (allAuth == 1))
+			verifAssert("sync-error-reported-iff-any-leaseholder-failed", (out.Err != nil) == anyErr)
 			if cmd == CommandCommit {
 				verifObserve("out.end", int64(out.End))
 				verifAssert("sync-commit-end-is-max", out.End == maxEnd)
